@@ -1,11 +1,15 @@
 #!/bin/bash
-# usage: try_patch.sh <patch.diff> <prop> [extra cli args]  -- applies the patch to /repo, runs the check, reverts
+# usage: try_patch.sh <patch.diff> <prop> [extra cli args]
+# Applies the patch to a scratch worktree of /repo (never to /repo itself), runs the check against it
+# (PYVC_REPO), removes the worktree.  The registered checks themselves always read /repo.
 set -u
-patch=$1; prop=$2; shift 2
-cd /repo || exit 9
-if ! git diff --quiet; then echo "/repo has uncommitted changes"; exit 9; fi
-git apply "$patch" || { echo "patch does not apply"; exit 9; }
-cd /verif && python3-vt -m pyvc.cli check "$prop" "$@"
+patch=$(readlink -f "$1"); prop=$2; shift 2
+wt=/tmp/wt_try_$$
+git -C /repo worktree add -q --detach $wt HEAD || exit 9
+cleanup() { git -C /repo worktree remove --force $wt 2>/dev/null; }
+trap 'cleanup; exit 130' INT TERM
+( cd $wt && git apply "$patch" ) || { echo "patch does not apply"; cleanup; exit 9; }
+cd /verif && PYVC_REPO=$wt timeout -k 10 1500 python3-vt -m pyvc.cli check "$prop" "$@"
 rc=$?
-git -C /repo checkout -- .
+cleanup
 echo "exit=$rc"
